@@ -187,6 +187,15 @@ class PyInfo(object):
         return out
 
 
+def counts_fields(cf, d):
+    """local d is incremented inside a loop that walks the field list (… = …->nextField): it counts fields, whatever it is called"""
+    for lp in cf.walk():
+        if lp['k'] in ('WhileStmt', 'ForStmt') and any(x['k'] == 'MemberExpr' and x.get('n') == 'nextField' for x in lp.walk()):
+            if any(x['k'] == 'UnaryOperator' and x.get('op') in ('post++', 'pre++') and A.strip_casts(x['ch'][0]).get('d') == d for x in lp.walk()):
+                return True
+    return False
+
+
 def py_effect_rule(res, py):
     """the Python writer and its size functions agree (rules/py_effect.py): every length word Python puts on the wire comes from the size functions"""
     from . import py_effect as PE
@@ -435,7 +444,8 @@ def run(res, tier):
                             src = 'version'
                         elif any(y.get('n') == 'what' for y in init.walk()):
                             src = 'what'
-                        elif any(y['k'] == 'DeclRefExpr' and 'Entries' in (y.get('n') or '') for y in init.walk()):
+                        elif any(y['k'] == 'MemberExpr' and y.get('n') == 'numFields' for y in init.walk()) or \
+                                any(y['k'] == 'DeclRefExpr' and y.get('d') is not None and counts_fields(cf, y['d']) for y in init.walk()):
                             src = 'count'
         srcs.append(src)
     res.ob('HEADER', cf.where(), 'C mini MMFlattenMessage writes version, what, count', srcs == ['version', 'what', 'count'], how=str(srcs), function=cf.q, key='HEADER|cmini',
@@ -496,9 +506,13 @@ def run(res, tier):
     for n in g.walk():
         if n['k'] == 'BinaryOperator' and n.get('op') == '=':
             l = A.strip_casts(n['ch'][0])
-            if l['k'] == 'ArraySubscriptExpr' and 'v' in l['ch'][1] and A.strip_casts(l['ch'][0]).get('n') == 'h':
+            # the frame header: a local uint32 pointer into the freshly allocated buffer, indexed with constants (whatever it is called); the length word is a value
+            # that comes from MMGetFlattenedSize()
+            base = A.strip_casts(l['ch'][0]) if l['k'] == 'ArraySubscriptExpr' else None
+            if l['k'] == 'ArraySubscriptExpr' and 'v' in l['ch'][1] and base is not None and base['k'] == 'DeclRefExpr' and 'unsigned int *' in base.type().replace('uint32', 'unsigned int'):
                 r = n['ch'][1]
-                lay[l['ch'][1]['v']] = 'encoding' if any('ENCODING' in (x.get('n') or '') for x in r.walk()) else ('length' if any(x.get('n') == 'flatSize' for x in r.walk()) else r.text(30))
+                is_len = any(x.is_call() and (x.get('q') or '') == 'MMGetFlattenedSize' for x in A.walk_through_locals(g, r))
+                lay[l['ch'][1]['v']] = 'encoding' if any('ENCODING' in (x.get('n') or '') for x in r.walk()) else ('length' if is_len else r.text(30))
     res.ob('FRAME', g.where(), 'C mini gateway: h[0] = length, h[1] = encoding', lay == {0: 'length', 1: 'encoding'}, how=str(lay), function=g.q, key='FRAME|cmini', message='MGAddOutgoingMessage lays out the frame as %s' % lay)
     ug = [f for f in fx.funcs.values() if f.full and f.file.endswith('MicroMessageGateway.c') and any(c.is_call() and (c.get('q') or '') == 'UMWriteInt32' for c in f.walk())]
     oku = False
@@ -506,7 +520,7 @@ def run(res, tier):
         ws = sorted((c for c in f.walk() if c.is_call() and (c.get('q') or '') == 'UMWriteInt32'), key=lambda c: c['i'])
         if len(ws) >= 2:
             a0, a1 = A.strip_casts(ws[0].args()[1]), A.strip_casts(ws[1].args()[1])
-            oku = ('Size' in (a0.get('n') or '')) and ('ENCODING' in (a1.get('n') or ''))
+            oku = any(x.is_call() and (x.get('q') or '') == 'UMGetFlattenedSize' for x in A.walk_through_locals(f, a0)) and ('ENCODING' in (a1.get('n') or ''))
     res.ob('FRAME', 'lang/c/micromessage/MicroMessageGateway.c', 'C micro gateway writes length then encoding', oku, function='C-micro', key='FRAME|cmicro', message='the micro gateway no longer writes [length][encoding]')
     okp = False
     for c in pyast.walk(py.ttree):
